@@ -272,7 +272,7 @@ PROPS = {
             'bounds': 'table: files with the listed numbers of transitions and types (<= 5 / 3), every content byte (times, type indices, offsets) symbolic, every timestamp from the first transition on; footer: every file whose footer follows one of the listed class templates (digits free), compared with an independent reference reader of the POSIX TZ string; rule semantics: every rule day / time / pair of offsets the reader can accept x every timestamp in years -5879610..=5879610, against a closed-form calendar reference, under the IANA-shape assumptions of the property',
             'outside': 'longer tables; footers outside the templates; the first and last representable year (known finding of C19); Offset::Local reading /etc/localtime and the wall clock (I/O); agreement of the reference evaluator with CPython zoneinfo (not available to a solver)'},
     'C19': {'obligations': c19,
-            'bounds': 'reader half: the stated families of byte strings (version 1 with any counts < 256 and all content free at lengths 44, 50, 55 (thorough: every length 44..58), truncated headers, wrong magic / version, mixed-version headers, fixed larger tables, version 2/3 files whose footer follows one of the listed class templates, a single-edit mutation of a base template (deletions and two-byte-character substitutions: all; free-ASCII-byte substitutions/insertions: quick a seeded sample of 40, thorough all), or is a short all-free ASCII string) x every i64 timestamp for table / fixed-rule lookups; lookup half: every rule day the reader can accept (proved as a post-condition of the reader on each family) x every rule time x every timestamp of the DateTime range',
+            'bounds': 'reader half: the stated families of byte strings (version 1 with any counts < 256 and all content free at lengths 44, 50, 55 (thorough: every length 44..58), truncated headers, wrong magic / version, mixed-version headers, fixed larger tables, version 2/3 files whose footer follows one of the listed class templates, a single-edit mutation of a base template (deletions and two-byte-character substitutions: all; free-ASCII-byte substitutions/insertions: quick a seeded sample of 40, thorough all), or is a short all-free ASCII string of at most 3 (+2 newlines) or 4 bytes) x every i64 timestamp for table / fixed-rule lookups; lookup half: every rule day the reader can accept (proved as a post-condition of the reader on each family) x every rule time x every timestamp of the DateTime range',
             'outside': 'byte strings outside the listed families (longer tables, footers that are more than one edit away from a template, 3/4-byte UTF-8 sequences in the footer); Offset::Local reading /etc/localtime (I/O)'},
     'C15': {'obligations': c15, 'bounds': 'full i32/u32/u64 domain of every parameter', 'outside': 'the rendered message text (std formatting of the tracked min/max/value fields)'},
     'C04': {'obligations': c04, 'bounds': 'all instants x all u32 counts; all Durations (u64 secs, u32 nanos < 10^9)', 'outside': ''},
